@@ -2,6 +2,11 @@ import ParryModel.Field
 import ParryModel.C15.Theorems
 import ParryModel.C16.Model
 import ParryModel.C16.Lemmas
+import ParryModel.C16.Theorems2
+import ParryModel.C16.Theorems3
+import ParryModel.C16.Theorems4
+import ParryModel.C16.Theorems5
+import ParryModel.C16.Theorems6
 /-!
 # C16 property theorems: ear clipping and Hertel–Mehlhorn, for every linearly ordered field.
 
@@ -131,5 +136,33 @@ theorem hertel_mehlhorn_sound (pts : Array (V2 K)) (tris : Array (Nat × Nat × 
   rw [← htot]
   unfold total hertelMehlhornIdx
   simp only [shoelace2, edgeSum_map]
+
+/-! ## the whole pipeline `from_polygon` → `hertel_mehlhorn` -/
+
+/-- **C16, end to end — every input polygon** (no simplicity assumption).  When `triangulate_ear_clipping` returns
+`Some(out)`, the pieces `hertel_mehlhorn_idx(vertices, out)` (the polygons `Compound::decompose_trimesh` builds its
+shapes from, see `decompose_trimesh_pieces`)
+* have total signed area equal to the polygon's shoelace area;
+* each have at least three vertices, positive signed area (counter-clockwise) and no clockwise corner;
+* correspond to groups of triangles that partition `out`, each piece being the boundary of its group glued along shared
+  diagonals (`hm_pieces_partition`). -/
+theorem polygon_pipeline_sound (pts : Array (V2 K)) (out : Array (Nat × Nat × Nat)) :
+    letI := fieldNum K sq
+    triangulateEarClipping pts = some out →
+    ((hertelMehlhornIdx pts out).toList.map fun p => shoelace2 (p.toList.map (pt pts))).sum = shoelace2 pts.toList ∧
+    (∀ p ∈ (hertelMehlhornIdx pts out).toList,
+      3 ≤ p.size ∧ 0 < shoelace2 (p.toList.map (pt pts)) ∧ LocallyConvex (pt pts) p.toList) ∧
+    (∃ groups : List (List (Nat × Nat × Nat)),
+      groups.length = (hertelMehlhornIdx pts out).size ∧ groups.flatten.Perm out.toList ∧
+      ∀ k (hk : k < (hertelMehlhornIdx pts out).size) (hk' : k < groups.length),
+        PieceOf (hertelMehlhornIdx pts out)[k] groups[k]) := by
+  intro h
+  obtain ⟨_, _, hpos, hsum⟩ := ear_clipping_sound sq pts out h
+  obtain ⟨harea, _, _⟩ := hertel_mehlhorn_sound sq pts out
+  refine ⟨by rw [harea, hsum], ?_, hm_pieces_partition sq pts out⟩
+  intro p hp
+  have h1 := hm_pieces_ccw sq pts out hpos p hp
+  have h2 := hm_pieces_locally_convex sq pts out (fun t ht => (hpos t ht).le) p hp
+  exact ⟨h2.1, h1, h2.2⟩
 
 end C16
